@@ -15,7 +15,7 @@ from ..interp import Interp, Hooks
 from ..galg import (GraphHooks, Evaluator, deep_snapshot, all_graphs,
                     all_subsets, NotEvaluable, GraphError, CG, _freeze,
                     g_subgraph)
-from ..report import Finding, RuleResult, floor
+from ..report import Finding, RuleResult, floor, Attempts
 from .c13 import adjacency_field, root_of, _aliases
 
 PROP = 'C14'
@@ -456,7 +456,9 @@ def rule_k4(prog, adj):
 
 def run(prog, tier, seed):
     adj = adjacency_field(prog)
-    results = [rule_k1(prog, adj), rule_k3(prog, adj), rule_k4(prog, adj)]
+    T = Attempts()
+    results = T.results(T(rule_k1, prog, adj), T(rule_k3, prog, adj),
+                        T(rule_k4, prog, adj))
     expl = ('Kripke is interpreted abstractly on top of the DiGraph '
             'primitives verified under C13. R-K-1: the constructor is '
             'summarised (paths with their conditions, resulting fields) and '
@@ -473,4 +475,4 @@ def run(prog, tier, seed):
                    'bounded comparison (<= 3 states)',
                    'the constructor copies every label set it is given '
                    '(decided by R-K-1 through set(L[state]))']
-    return results, expl, assumptions, {}
+    return results, expl, assumptions, T.extra()
